@@ -122,6 +122,20 @@ Example C10_example :
   end.
 Proof. vm_compute. reflexivity. Qed.
 
+(* binary columns are inside the builder model: bytes, or a sequence / tuple of u8, element by element *)
+Example C10_binary_example :
+  match build (mkField [] (DStruct [mkField (b "d") (DBytes BBinary) true]) false) with
+  | Some b0 =>
+    match run_history b0 [HPush (VStruct [(b "d", VBytes (b "ab"))]); HPush (VStruct [(b "d", VSeq [VInt U8 1; VInt U8 255])]); HPush (VStruct [(b "d", VNone)]); HBuild;
+                          HPush (VStruct [(b "d", VTuple [VInt U8 7])]); HBuild] with
+    | Ok [AStruct 3 None [(_, ABytes BBinary (Some _) offs data)]; AStruct 1 None [(_, ABytes BBinary (Some _) offs2 data2)]] =>
+      offs = [0; 2; 4; 4]%Z /\ data = [97; 98; 1; 255]%N /\ offs2 = [0; 1]%Z /\ data2 = [7]%N
+    | _ => False
+    end
+  | None => False
+  end.
+Proof. vm_compute. repeat split; reflexivity. Qed.
+
 Print Assumptions C10_take_is_fresh.
 Print Assumptions C10_union_push.
 Print Assumptions C10_union_history.
